@@ -1045,7 +1045,12 @@ fn main() {
     }
 
     // G2: two queries (same name / different name), sub-alphabets, to the fixpoint
-    let pair_cfgs: Vec<usize> = if quick { vec![0, 2, 6, 9, 15, 23, 27, 30, 35] } else { all_cfgs.clone() };
+    let pair_cfgs: Vec<usize> = if quick {
+        vec![0, 2, 6, 9, 15, 23, 27, 30, 35]
+    } else {
+        // every second global configuration, every per-type / combined one
+        all_cfgs.iter().copied().filter(|i| *i >= 24 || i % 2 == 0).collect()
+    };
     let pair_shapes: Vec<&'static str> = if quick {
         vec!["q1", "q5", "cname1+q5", "q2+ns7+glue1", "mx2", "neg1-full", "neg3", "err-timeout"]
     } else {
